@@ -98,6 +98,24 @@ void b_plain_and_forbid(void)
   __CPROVER_assert(vp_rep_n == 1 && vp_exc == 0 && !vp_terminated, "[C04,C14] POST releasing them afterwards reports nothing more");
   __CPROVER_assert(0, "REACH! b_plain_and_forbid");
 }
+/* the multiplicity helpers: AT_MOST(n) = [0, n], AT_LEAST(n) = [n, unbounded], ALLOW_CALL = [0, unbounded] */
+void b_multiplicities(void)
+{
+  struct S_vp_M m; MK_M(&m);
+  struct S_expectation *a = BUILD_AT_MOST(&m), *b = BUILD_AT_LEAST(&m), *c = BUILD_ALLOW(&m);
+  struct CM *ca = cm_of(a), *cb = cm_of(b), *cc = cm_of(c);
+  __CPROVER_assert(vp_exc == 0 && vp_rep_n == 0, "[C03] POST multiplicities.building_is_silent");
+  __CPROVER_assert(ca->sequences->min_calls == 0 && ca->sequences->max_calls == 3, "[C03] POST multiplicities.AT_MOST_n_is_zero_to_n");
+  __CPROVER_assert(cb->sequences->min_calls == 2 && cb->sequences->max_calls == ~0UL, "[C03] POST multiplicities.AT_LEAST_n_is_n_to_unbounded");
+  __CPROVER_assert(cc->sequences->min_calls == 0 && cc->sequences->max_calls == ~0UL, "[C03] POST multiplicities.ALLOW_CALL_is_zero_to_unbounded");
+  vp_delete_struct_S_expectation(a); vp_delete_struct_S_expectation(c);
+  __CPROVER_assert(vp_rep_n == 0, "[C04] POST multiplicities.AT_MOST_and_ALLOW_never_report_at_end_of_life");
+  vp_delete_struct_S_expectation(b);
+  __CPROVER_assert(vp_rep_n == 1 && vp_rep[0].sev == 1, "[C04] POST multiplicities.AT_LEAST_2_never_called_is_one_non_fatal_report");
+  M_DTOR(&m);
+  __CPROVER_assert(vp_rep_n == 1 && vp_exc == 0 && !vp_terminated, "[C04,C14] POST multiplicities.the_empty_mock_object_is_destroyed_silently");
+  __CPROVER_assert(0, "REACH! b_multiplicities");
+}
 #ifdef WANT_FULL
 /* a complete expectation with the user's real clauses (closures lowered from the driver):
  *   .WITH(_1 > 0).WITH(_1 < 9).LR_SIDE_EFFECT(g = g * 2).LR_SIDE_EFFECT(g = g + 1).TIMES(2, 5).IN_SEQUENCE(s1, s2).LR_RETURN(_1 + g)
